@@ -23,34 +23,50 @@ def step_account(ctx, r):
     execs = [x for x in q.walk(f["body"]) if x["k"] == "MethodCall" and x["m"] in ("run_n_steps", "run", "step")]
     r.count("instruction-executing calls in the scheduler", len(execs), 1, VM)
     loops = [x for x in q.walk(f["body"]) if x["k"] == "While"]
+    # the budget: the parameter of integer type, or a mutable local initialised from it; the count: a mutable local starting at 0
+    int_params = [b for p_ in f["params"] if not p_.get("self") and p_.get("ty", "").strip() in ("u32", "u64", "usize") for b in q.pat_bindings(p_["pat"])]
+    budget = set(int_params)
+    counters = set()
+    for l_ in q.walk(f["body"]):
+        if l_["k"] == "Local" and l_.get("init") is not None and l_["pat"].get("k") == "PIdent":
+            if l_["init"]["k"] == "Path" and l_["init"]["p"] in int_params:
+                budget.add(l_["pat"]["name"])
+            if l_["init"]["k"] == "Lit" and str(l_["init"].get("v")).rstrip("u3264size_") == "0":
+                counters.add(l_["pat"]["name"])
     for x in execs:
         amount = q.show(x["args"][0]) if x["args"] else "unbounded"
         r.ob(x["m"] == "run_n_steps" and amount == "1", "vm.rs:run_threads_round_robin:unit-not-one", VM, x["l"],
              f"the scheduler must step a thread by the literal unit 1 (it calls {x['m']}({amount})): a larger slice makes GC pacing and interleaving depend on the embedder's budget", sample="scheduler: thread.run_n_steps(1)")
-        # inside the while whose condition requires remaining_steps > 0
+        # inside the while whose condition requires budget > 0
         lp = next((w for w in loops if any(y is x for y in q.walk(w["body"]))), None)
         cond = q.show(lp["c"]).replace(" ", "") if lp else ""
-        r.ob("remaining_steps>0" in cond, "vm.rs:run_threads_round_robin:not-budget-guarded", VM, x["l"], f"instruction execution must be dominated by `remaining_steps > 0` (loop condition: {cond})", sample=f"scheduler loop: while {cond}")
+        guarded = lp is not None and any(pol and c_["k"] == "Binary" and ((c_["op"] == ">" and q.show(c_["a"]) in budget and q.show(c_["b"]) == "0") or (c_["op"] == "!=" and q.show(c_["a"]) in budget and q.show(c_["b"]) == "0") or (c_["op"] == "<" and q.show(c_["b"]) in budget and q.show(c_["a"]) == "0")) for c_, pol in q.cond_atoms([(lp["c"], True)]))
+        r.ob(guarded, "vm.rs:run_threads_round_robin:not-budget-guarded", VM, x["l"], f"instruction execution must be dominated by `<remaining budget> > 0` (loop condition: {cond}; budget variable(s) {sorted(budget)})", sample=f"scheduler loop: while {cond}")
         # paid for in the same block
         blk = enclosing_block(f["body"], x)
-        decs = [y for y in q.walk(blk) if y["k"] == "Binary" and y["op"] == "-=" and q.show(y["a"]) == "remaining_steps"] if blk else []
-        incs = [y for y in q.walk(blk) if y["k"] == "Binary" and y["op"] == "+=" and q.show(y["a"]) == "steps_run"] if blk else []
+        decs = [y for y in q.walk(blk) if y["k"] == "Binary" and y["op"] == "-=" and q.show(y["a"]) in budget] if blk else []
+        incs = [y for y in q.walk(blk) if y["k"] == "Binary" and y["op"] == "+=" and q.show(y["a"]) in counters] if blk else []
         ok = len(decs) == 1 and q.show(decs[0]["b"]) == amount and len(incs) == 1 and q.show(incs[0]["b"]) == amount
         r.ob(ok, "vm.rs:run_threads_round_robin:step-not-accounted", VM, x["l"],
-             f"each executed unit must decrement remaining_steps and increment steps_run by the same amount ({amount}); found decrements {[q.show(d['b']) for d in decs]}, increments {[q.show(i['b']) for i in incs]}",
-             sample="scheduler: remaining_steps -= 1; steps_run += 1 next to the step")
-        gate = enclosing_if_cond(f["body"], x)
-        r.ob(gate is not None and "can_run" in gate, "vm.rs:run_threads_round_robin:runs-blocked-thread", VM, x["l"], f"a thread must only be stepped when can_run() (guard: {gate})")
+             f"each executed unit must decrement the remaining budget and increment the executed count by the same amount ({amount}); found decrements {[q.show(d['b']) for d in decs]}, increments {[q.show(i['b']) for i in incs]}",
+             sample="scheduler: budget -= 1; count += 1 next to the step")
+        atoms = q.cond_atoms(q.path_conds(f["body"], x) or [])
+        gate = [("" if pol else "not ") + q.show(c_) for c_, pol in atoms]
+        r.ob(any(pol and c_["k"] == "MethodCall" and c_["m"] == "can_run" for c_, pol in atoms), "vm.rs:run_threads_round_robin:runs-blocked-thread", VM, x["l"], f"a thread must only be stepped when can_run() (reached under: {gate})")
     g = rt_fn(ctx, r, "run_n_steps", "VmGreenThread")
     if g is not None:
-        lp = [w for w in q.walk(g["body"]) if w["k"] == "While"]
+        gp = [b for p_ in g["params"] if not p_.get("self") for b in q.pat_bindings(p_["pat"])]
         ok = False
-        if lp:
-            w = lp[0]
-            steps = [y for y in q.walk(w["body"]) if y["k"] == "MethodCall" and y["m"] == "step"]
-            decs = [y for y in q.walk(w["body"]) if y["k"] == "Binary" and y["op"] == "-=" and q.show(y["b"]) == "1"]
-            ok = len(steps) == 1 and len(decs) == 1 and "steps>0" in q.show(w["c"]).replace(" ", "")
-        r.ob(ok, "vm.rs:VmGreenThread::run_n_steps:one-step-per-unit", VM, g["l"], "run_n_steps must execute exactly one step() per unit of its budget", sample="run_n_steps: while steps > 0 { maybe_gc; step; steps -= 1 }")
+        for w in q.walk(g["body"]):
+            if w["k"] == "While":
+                steps = [y for y in q.walk(w["body"]) if y["k"] == "MethodCall" and y["m"] == "step"]
+                decs = [y for y in q.walk(w["body"]) if y["k"] == "Binary" and y["op"] == "-=" and q.show(y["b"]) == "1" and q.show(y["a"]) in gp]
+                ok = ok or (len(steps) == 1 and len(decs) == 1 and any(q.show(y["a"]) + ">0" in q.show(w["c"]).replace(" ", "") for y in decs))
+            if w["k"] == "For" and w["e"]["k"] == "Range" and q.show(w["e"].get("a") or {"k": "Lit", "v": "0"}) == "0" and w["e"].get("b") is not None and q.show(w["e"]["b"]) in gp and not w["e"].get("incl"):
+                steps = [y for y in q.walk(w["body"]) if y["k"] == "MethodCall" and y["m"] == "step"]
+                inner = [y for y in q.walk(w["body"]) if y["k"] in ("While", "For", "Loop")]
+                ok = ok or (len(steps) == 1 and not inner)
+        r.ob(ok, "vm.rs:VmGreenThread::run_n_steps:one-step-per-unit", VM, g["l"], "run_n_steps must execute exactly one step() per unit of its budget", sample="run_n_steps: one step() per unit of the budget")
     c = rt_fn(ctx, r, "can_run", "VmGreenThread")
     if c is not None:
         txt = q.show(c["body"]["stmts"][-1]["e"]) if c["body"]["stmts"] else ""
@@ -323,8 +339,22 @@ def main_done(ctx, r):
                 if x["k"] == "Local" and x.get("init") is not None and "run_threads_round_robin" in q.show(x["init"]):
                     b = q.pat_bindings(x["pat"])
                     flag = b[idx] if idx < len(b) else None
-            ifs = [x for x in q.walk(h["body"]) if x["k"] == "If" and flag is not None and q.show(x["c"]).strip("()") == flag]
-            ok = bool(ifs) and any(y["k"] == "Path" and y["p"] == "RuntimeStatusKind::Done" for y in q.walk(ifs[0]["t"])) and any(y["k"] == "Return" for y in q.walk(ifs[0]["t"]))
+            ok = False
+            for x in q.walk(h["body"]):
+                if x["k"] != "If" or flag is None:
+                    continue
+                c_ = q.show(x["c"]).replace(" ", "").strip("()")
+                branch = x["t"] if c_ == flag else (x.get("e") if c_ in ("!" + flag, "!(" + flag + ")") else None)
+                if branch is None or not any(y["k"] == "Path" and y["p"] == "RuntimeStatusKind::Done" for y in q.walk(branch)):
+                    continue
+                if any(y["k"] == "Return" for y in q.walk(branch)):
+                    ok = True  # reported at once
+                # or the branch is the value of the status kind that the function returns
+                for l_ in q.walk(h["body"]):
+                    if l_["k"] == "Local" and l_.get("init") is x and l_["pat"].get("k") == "PIdent":
+                        nm = l_["pat"]["name"]
+                        if any(y["k"] == "Struct" and "RuntimeStatus" in str(y.get("p")) and any(fl.get("name") == "kind" and q.show(fl["e"]) == nm for fl in y.get("fields", [])) for y in q.walk(h["body"])):
+                            ok = True
             r.ob(ok, "vm.rs:Runtime::run_n_steps:done-status", VM, h["l"], f"run_n_steps must report Done when the scheduler's completion flag (`{flag}`) is set", sample=f"run_n_steps: {flag} -> Done")
         else:
             # no flag: the status must come from update_status_helper alone, whose first test is the main thread (STATUS-MAP)
